@@ -406,6 +406,9 @@ def check_batch(progs, st):
         solver.push()
         solver.add(x != y_)
         r = str(solver.check())
+        from vf import smt2dump
+        if smt2dump.wanted(r):
+            smt2dump.maybe_dump(list(solver.assertions()), r, time.time() - t, "veq")
         mdl = None
         if r == "sat":
             mdl = {d.name(): solver.model()[d].as_long() for d in solver.model().decls() if z3.is_bv_value(solver.model()[d])}
